@@ -19,7 +19,7 @@ m = {
         "guard": "erg_verif",
         "enable": "RUSTFLAGS=\"--cfg erg_verif\" cargo build --offline (set by lib/vplib.py for the harness crates and the erg binary)",
         "baseline_off_cmd": "cd /repo && cargo test --workspace --no-fail-fast --offline",
-        "source_commits": [l.strip() for l in open("/verif/hooks_commits.txt")] if os.path.exists("/verif/hooks_commits.txt") else [],
+        "source_commits": [l.split()[0] for l in open("/verif/hooks_commits.txt") if l.strip()] if os.path.exists("/verif/hooks_commits.txt") else [],
         "add_only": True,
     },
     "engines": [
